@@ -95,10 +95,6 @@ func canon(b *strings.Builder, v interface{}) {
 }
 
 func canonMap(b *strings.Builder, m map[string]interface{}) {
-	if m == nil {
-		b.WriteString("nilmap")
-		return
-	}
 	keys := make([]string, 0, len(m))
 	for k := range m {
 		keys = append(keys, k)
